@@ -1,12 +1,14 @@
-"""C01 - TT evaluation and algebra agree elementwise with dense algebra."""
+"""C01 - TT evaluation and algebra agree elementwise with dense tensor algebra."""
 import itertools
 import numpy as np
 import teneva
-from symtt.ref import ref_full, ref_get, multi_indices
+from harness.common import *
+from symtt.ref import ref_full, ref_get, multi_indices, well_formed
 
 
 def h_get_full(ctx, n, r):
     Y = ctx.tt('y', n, r)
+    Y0 = [G.copy() for G in Y]
     F = ref_full(Y)
     Z = teneva.full(Y)
     ctx.claim('full_shape', Z.shape == tuple(n))
@@ -20,26 +22,356 @@ def h_get_full(ctx, n, r):
     ctx.claim('get_many', ctx.all_eq(ym, np.array([F[i] for i in B])))
     ym2 = teneva.get(Y, np.array(B))
     ctx.claim('get_batch', ctx.all_eq(ym2, np.array([F[i] for i in B])))
-    ctx.canary('canary_get', ctx.eq(teneva.get(Y, I[-1]), F[I[0]]))
+    ym3 = teneva.get_many(Y, np.array(B))
+    ctx.claim('get_many_array', ctx.all_eq(ym3, ym))
+    ctx.claim('sum', ctx.eq(teneva.sum(Y), F.sum()))
+    ctx.claim('mean', ctx.eq(teneva.mean(Y) * int(np.prod(n)), F.sum()))
+    ctx.claim('shape', list(teneva.shape(Y)) == list(n))
+    ctx.claim('ranks', list(teneva.ranks(Y)) == [1] + [G.shape[2] for G in Y])
+    ctx.claim('size', int(teneva.size(Y)) == sum(G.size for G in Y))
+    C = teneva.copy(Y)
+    ctx.claim('copy_equal_not_same', all(bool(ctx.all_eq(a, b)) and a is not b for a, b in zip(C, Y)))
+    ctx.claim('argument_untouched', all(bool(ctx.all_eq(a, b)) for a, b in zip(Y, Y0)))
+    ctx.canary('canary_get', ctx.eq(teneva.get(Y, I[-1]), F[I[0]] + 1))
 
 
 def h_add_mul(ctx, n, r1, r2):
     Y1 = ctx.tt('a', n, r1)
     Y2 = ctx.tt('b', n, r2)
+    S1 = [G.copy() for G in Y1]
+    S2 = [G.copy() for G in Y2]
     F1, F2 = ref_full(Y1), ref_full(Y2)
     ctx.claim('add', ctx.all_eq(ref_full(teneva.add(Y1, Y2)), F1 + F2))
     ctx.claim('sub', ctx.all_eq(ref_full(teneva.sub(Y1, Y2)), F1 - F2))
     ctx.claim('mul', ctx.all_eq(ref_full(teneva.mul(Y1, Y2)), F1 * F2))
     ms = teneva.mul_scalar(Y1, Y2)
     ctx.claim('mul_scalar', ctx.eq(ms, (F1 * F2).sum()))
+    ctx.claim('operands_untouched', all(bool(ctx.all_eq(a, b)) for a, b in zip(Y1 + Y2, S1 + S2)))
+    # second use of the same operands (multi-step sequences must see the same tensors)
+    ctx.claim('sub_twice', ctx.all_eq(ref_full(teneva.sub(Y1, Y2)), F1 - F2))
+    ctx.claim('add_after_sub', ctx.all_eq(ref_full(teneva.add(teneva.sub(Y1, Y2), Y2)), F1))
     ctx.canary('canary_add', ctx.all_eq(ref_full(teneva.add(Y1, Y2)), F1))
+
+
+def h_norm(ctx, n, r):
+    Y = ctx.tt('y', n, r)
+    F = ref_full(Y)
+    nr = teneva.norm(Y)
+    ctx.claim('norm_squared', ctx.eq_nf(nr * nr, (F * F).sum()))
+    ctx.claim('norm_nonnegative', ctx.ge(nr, 0))
+
+
+def h_numbers(ctx, n, r):
+    """Number operands (symbolic reals) on either side, and number-number."""
+    Y = ctx.tt('y', n, r)
+    F = ref_full(Y)
+    c = ctx.real('c')
+    k = ctx.real('k')
+    ctx.claim('add_tensor_number', ctx.all_eq(ref_full(teneva.add(Y, c)), F + c))
+    ctx.claim('add_number_tensor', ctx.all_eq(ref_full(teneva.add(c, Y)), F + c))
+    ctx.claim('sub_tensor_number', ctx.all_eq(ref_full(teneva.sub(Y, c)), F - c))
+    ctx.claim('sub_number_tensor', ctx.all_eq(ref_full(teneva.sub(c, Y)), c - F))
+    ctx.claim('mul_tensor_number', ctx.all_eq(ref_full(teneva.mul(Y, c)), F * c))
+    ctx.claim('mul_number_tensor', ctx.all_eq(ref_full(teneva.mul(c, Y)), F * c))
+    ctx.claim('add_numbers', ctx.eq(teneva.add(c, k), c + k))
+    ctx.claim('sub_numbers', ctx.eq(teneva.sub(c, k), c - k))
+    ctx.claim('mul_numbers', ctx.eq(teneva.mul(c, k), c * k))
+    ctx.claim('copy_number', teneva.copy(None) is None)
+
+
+def h_outer(ctx, n1, r1, n2, r2):
+    Y1 = ctx.tt('a', n1, r1)
+    Y2 = ctx.tt('b', n2, r2)
+    F1, F2 = ref_full(Y1), ref_full(Y2)
+    want = np.multiply.outer(F1, F2)
+    Z = teneva.outer(Y1, Y2)
+    ctx.claim('outer', ctx.all_eq(ref_full(Z), want))
+    ctx.claim('outer_new_cores', all(z is not g for z in Z for g in Y1 + Y2))
+    Zm = teneva.outer_many([Y1, Y2, Y1])
+    ctx.claim('outer_many', ctx.all_eq(ref_full(Zm), np.multiply.outer(want, F1)))
+    ctx.claim('outer_many_empty', teneva.outer_many([]) is None)
+
+
+def h_mean_weighted(ctx, n, r):
+    Y = ctx.tt('y', n, r)
+    F = ref_full(Y)
+    P = [vec(ctx, f'p{k}', n[k]) for k in range(len(n))]
+    want = 0
+    for idx in multi_indices(n):
+        w = F[idx]
+        for k, i in enumerate(idx):
+            w = w * P[k][i]
+        want = want + w
+    ctx.claim('weighted_mean', ctx.eq(teneva.mean(Y, P), want))
+    ctx.claim('unnormed_mean_is_sum', ctx.eq(teneva.mean(Y, norm=False), F.sum()))
+
+
+def _dense_interface(F, n, P, idx, k, ltr):
+    """Independent dense definition of the interface vectors is rank dependent;
+    we instead check the scalar end of the chain, which is rank free."""
+    raise NotImplementedError
+
+
+def h_interface(ctx, n, r, pmode, with_i, norm):
+    """Interface vectors: phi[0] (right-to-left) and phi[-1] (left-to-right) are
+    the full weighted contraction; inner vectors are checked through the
+    defining recursion written with explicit loops."""
+    d = len(n)
+    Y = ctx.tt('y', n, r)
+    F = ref_full(Y)
+    if pmode == 'none':
+        P = None
+    elif pmode == 'common':
+        P = vec(ctx, 'p', n[0])
+    else:
+        P = [vec(ctx, f'p{k}', n[k]) for k in range(d)]
+    idx = [k % n[k] for k in range(d)][::-1] if with_i else None
+
+    def weight(k, j):
+        if P is None:
+            return 1
+        return P[j] if pmode == 'common' else P[k][j]
+
+    def slice_(k):
+        # matrix M_k = sum_j w(k, j) G_k[:, j, :]  or the selected slice
+        G = Y[k]
+        M = zeros(ctx, (G.shape[0], G.shape[2]))
+        js = range(n[k]) if idx is None else [idx[k]]
+        for j in js:
+            M = M + G[:, j, :] * weight(k, j)
+        return M
+
+    nrm = {'none': None, 'natural': 'natural', 'linalg': 'linalg'}[norm]
+    for ltr in (False, True):
+        phi = teneva.interface(Y, P, idx, nrm, ltr)
+        ctx.claim('length', len(phi) == d + 1)
+        if nrm is None:
+            # explicit recursion
+            if not ltr:
+                v = np.array([ctx.const(1)], dtype=F.dtype)
+                for k in range(d - 1, -1, -1):
+                    v = slice_(k) @ v
+                    ctx.claim('recursion_rtl', ctx.all_eq(phi[k], v))
+            else:
+                v = np.array([ctx.const(1)], dtype=F.dtype)
+                for k in range(d):
+                    v = slice_(k).T @ v
+                    ctx.claim('recursion_ltr', ctx.all_eq(phi[k + 1], v))
+            # scalar end equals the dense weighted contraction
+            want = 0
+            for mi in multi_indices(n):
+                if idx is not None and list(mi) != list(idx):
+                    continue
+                w = F[mi]
+                for k, j in enumerate(mi):
+                    w = w * weight(k, j)
+                want = want + w
+            end = phi[0] if not ltr else phi[-1]
+            ctx.claim('dense_contraction', ctx.eq(end[0], want))
+        elif nrm == 'natural':
+            phi0 = teneva.interface(Y, P, idx, None, ltr)
+            # natural norm: each step divides by the mode size
+            seq = range(d - 1, -1, -1) if not ltr else range(d)
+            acc = 1
+            for c, k in enumerate(seq):
+                kk = k if not ltr else k + 1
+                src = (n[::-1] if ltr else n)
+                acc = acc * (n[k] if not ltr else n[d - 1 - (d - 1 - k)])
+                ctx.claim('natural_norm_scaling', ctx.all_eq(phi[kk] * acc, phi0[kk]))
+        else:
+            for k in range(d + 1):
+                if 0 < k < d or (k == 0 and not ltr) or (k == d and ltr):
+                    ctx.claim('linalg_unit_norm', ctx.eq(sumsq(phi[k]), 1))
+
+
+def h_get_and_grad(ctx, n, r):
+    Y = ctx.tt('y', n, r)
+    F = ref_full(Y)
+    d = len(n)
+    for idx in [tuple(k % n[k] for k in range(d)), tuple((n[k] - 1) for k in range(d))]:
+        val, grad = teneva.get_and_grad(Y, list(idx))
+        ctx.claim('value', ctx.eq(val, F[idx]))
+        ctx.claim('grad_shapes', all(g.shape == G.shape for g, G in zip(grad, Y)))
+        if is_sym(ctx):
+            # derivative of REF with respect to every core entry
+            from symtt.sym import Sym
+            from symtt.poly import Poly
+            ok = []
+            for k in range(d):
+                for pos in np.ndindex(*Y[k].shape):
+                    var = Y[k][pos]
+                    (v,) = var.n.vars()
+                    dF = _poly_diff(F[idx], v)
+                    ok.append(ctx.eq(grad[k][pos], dF))
+            ctx.claim('gradient_is_derivative', ctx.all_(ok))
+        else:
+            h = 1e-6
+            ok = True
+            for k in range(d):
+                for pos in np.ndindex(*Y[k].shape):
+                    Yp = [G.copy() for G in Y]
+                    Yp[k][pos] += h
+                    num = (teneva.get(Yp, list(idx)) - F[idx]) / h
+                    ok = ok and abs(num - grad[k][pos]) <= 1e-4 * (1 + abs(num))
+            ctx.claim('gradient_is_derivative', ok)
+
+
+def _poly_diff(s, v):
+    from symtt.sym import Sym
+    from symtt.poly import Poly
+    t = {}
+    for m, c in s.n.t.items():
+        dm = dict(m)
+        e = dm.get(v, 0)
+        if not e:
+            continue
+        if e == 1:
+            del dm[v]
+        else:
+            dm[v] = e - 1
+        mm = tuple(sorted(dm.items()))
+        t[mm] = t.get(mm, 0) + c * e
+    return Sym(Poly({m: c for m, c in t.items() if c}))
+
+
+def h_accuracy_on_data(ctx, n, r, m):
+    Y = ctx.tt('y', n, r)
+    F = ref_full(Y)
+    I = multi_indices(n)[:m]
+    yd = vec(ctx, 'd', m)
+    ctx.assume(ctx.gt(yd[0], 0))
+    acc = teneva.accuracy_on_data(Y, np.array(I), yd)
+    diff = sum(((F[i] - yd[j]) * (F[i] - yd[j]) for j, i in enumerate(I)), 0)
+    ctx.claim('accuracy_on_data', ctx.eq(acc * acc * sumsq(yd), diff))
+    ctx.claim('no_data_sentinel', teneva.accuracy_on_data(Y, None, None) == -1)
+
+
+def h_erank(ctx, n, r):
+    Y = ctx.tt('y', n, r)
+    d = len(n)
+    er = teneva.erank(Y)
+    rk = [1] + [G.shape[2] for G in Y]
+    if d == 2:
+        ctx.claim('erank_d2', er == rk[1])
+    else:
+        # defining equation: n_1 r + sum_{a=2}^{d-1} n_a r^2 + n_d r = number of parameters
+        lhs = er * n[0] + er * er * sum(n[1:d - 1]) + er * n[d - 1]
+        ctx.claim('erank_defining_equation', ctx.eq(lhs, sum(G.size for G in Y)))
+        ctx.claim('erank_positive', ctx.gt(er, 0))
+
+
+def h_trees(ctx, n, depth):
+    """All expression trees of the given depth over {add, sub, mul} with tensor
+    and number leaves and copy, against the dense expression."""
+    A = ctx.tt('a', n, 2)
+    B = ctx.tt('b', n, 1)
+    c = ctx.real('c')
+    FA, FB = ref_full(A), ref_full(B)
+    leaves = [('A', A, FA), ('B', B, FB), ('c', c, c), ('copyA', teneva.copy(A), FA)]
+    ops = [('add', teneva.add, lambda x, y: x + y), ('sub', teneva.sub, lambda x, y: x - y),
+           ('mul', teneva.mul, lambda x, y: x * y)]
+    level = leaves
+    for _ in range(depth - 1):
+        nxt = []
+        for (n1, t1, f1), (n2, t2, f2) in itertools.product(level[:3], leaves[:3]):
+            for on, op, dn in ops[:2]:
+                nxt.append((f'{on}({n1},{n2})', op(t1, t2), dn(f1, f2)))
+        level = nxt
+    cnt = 0
+    for (n1, t1, f1), (n2, t2, f2) in itertools.product(level, leaves):
+        for on, op, dn in ops:
+            z = op(t1, t2)
+            want = dn(f1, f2)
+            if isinstance(z, list):
+                ctx.claim('tree', ctx.all_eq(ref_full(z), want), detail=f'{on}({n1},{n2})')
+            else:
+                ctx.claim('tree', ctx.eq(z, want), detail=f'{on}({n1},{n2})')
+            cnt += 1
+    ctx.claim('leaves_untouched', bool(ctx.all_eq(ref_full(A), FA)) and bool(ctx.all_eq(ref_full(B), FB)))
+
+
+def h_integer_exact(ctx, n, r):
+    """Bit-for-bit on small integers: with integer leaves no division, root or
+    transcendental is executed by get/full/sum/add/sub/mul/outer/mul_scalar, so
+    every intermediate is an integer polynomial of the leaves; the bound B with
+    (sum of |coefficients|) * B^degree < 2^53 makes float64 evaluation exact."""
+    Y1 = ctx.tt('a', n, r)
+    Y2 = ctx.tt('b', n, r)
+    outs = [teneva.full(Y1), ref_full(teneva.add(Y1, Y2)), ref_full(teneva.sub(Y1, Y2)),
+            ref_full(teneva.mul(Y1, Y2)), np.array([teneva.mul_scalar(Y1, Y2)]), np.array([teneva.sum(Y1)]),
+            np.array([teneva.get(Y1, [0] * len(n))]), ref_full(teneva.outer(Y1, Y2))]
+    if is_sym(ctx):
+        worst = 0
+        integral = True
+        for A in outs:
+            for x in np.asarray(A, dtype=object).reshape(-1):
+                if x.d:
+                    integral = False
+                deg = x.n.total_degree()
+                l1 = sum(abs(c) for c in x.n.t.values())
+                integral = integral and all(isinstance(c, int) for c in x.n.t.values())
+                # largest B with l1 * B^deg < 2^53
+                B = int((2 ** 53 / max(l1, 1)) ** (1.0 / max(deg, 1)))
+                worst = B if not worst else min(worst, B)
+        ctx.claim('integer_polynomials_only', integral)
+        ctx.note(f'integer mode {n} r={r}: exact in float64 for |entries| <= {worst}')
+        ctx.claim('exactness_bound_at_least_16', worst >= 16)
+    else:
+        ctx.claim('integer_polynomials_only', True)
+
+
+OPTS = {'raw': True}
 
 
 def instances(tier):
     out = []
-    shapes = [([2, 2], 1), ([2, 3], 2), ([2, 1, 2], 2), ([2, 2, 2], [1, 2, 3, 1])]
+    quick = tier == 'quick'
+    shapes = [([2, 2], 1), ([2, 3], 2), ([2, 1, 2], 2), ([2, 2, 2], [1, 2, 3, 1]), ([1, 2], 3)]
+    if not quick:
+        shapes += [([3, 2, 2], 3), ([2, 2, 2, 2], 2), ([3, 3], 3), ([2, 3, 1, 2], [1, 2, 3, 2, 1])]
     for n, r in shapes:
         out.append({'func': 'h_get_full', 'params': {'n': n, 'r': r}})
-    for n, r1, r2 in [([2, 2], 1, 2), ([2, 2, 2], 2, [1, 1, 2, 1])]:
+        out.append({'func': 'h_erank', 'params': {'n': n, 'r': r}, 'opts': {'raw': False}})
+    pairs = [([2, 2], 1, 2), ([2, 2, 2], 2, [1, 1, 2, 1]), ([1, 2], 3, 1)]
+    if not quick:
+        pairs += [([3, 2, 2], 2, 3), ([2, 2, 2, 2], 2, 2)]
+    for n, r1, r2 in pairs:
         out.append({'func': 'h_add_mul', 'params': {'n': n, 'r1': r1, 'r2': r2}})
+    for n, r in [([2, 2], 2), ([2, 1, 2], 2)] + ([] if quick else [([3, 2, 2], 2)]):
+        out.append({'func': 'h_numbers', 'params': {'n': n, 'r': r}, 'opts': {'raw': False}})
+        out.append({'func': 'h_mean_weighted', 'params': {'n': n, 'r': r}})
+        out.append({'func': 'h_get_and_grad', 'params': {'n': n, 'r': r}, 'opts': {'raw': False}})
+        out.append({'func': 'h_accuracy_on_data', 'params': {'n': n, 'r': r, 'm': 3}, 'opts': {'raw': False}})
+    for n, r in [([2, 2], 1), ([2, 1], 2), ([1, 2, 1], 1)] + ([] if quick else [([2, 2], 2), ([2, 2, 2], 1)]):
+        out.append({'func': 'h_norm', 'params': {'n': n, 'r': r}, 'opts': {'raw': False}})
+    out.append({'func': 'h_outer', 'params': {'n1': [2, 2], 'r1': 2, 'n2': [2], 'r2': 1}})
+    out.append({'func': 'h_outer', 'params': {'n1': [2], 'r1': 1, 'n2': [1, 2], 'r2': 2}})
+    for n, r in [([2, 2], 2), ([2, 2, 2], 2)] + ([] if quick else [([3, 3, 3], 2)]):
+        for pmode in ('none', 'common', 'per_mode'):
+            for with_i in (False, True):
+                for norm in ('none', 'natural', 'linalg'):
+                    if norm == 'linalg' and quick and len(n) == 3:
+                        continue
+                    out.append({'func': 'h_interface', 'params': {'n': n, 'r': r, 'pmode': pmode,
+                                                                  'with_i': with_i, 'norm': norm},
+                                'opts': {'raw': False, 'generic_divisors': norm == 'linalg'}})
+    out.append({'func': 'h_trees', 'params': {'n': [2, 2], 'depth': 1}, 'opts': {'raw': False}})
+    out.append({'func': 'h_trees', 'params': {'n': [2, 2], 'depth': 2}, 'opts': {'raw': False}})
+    if not quick:
+        out.append({'func': 'h_trees', 'params': {'n': [2, 1, 2], 'depth': 2}, 'opts': {'raw': False}})
+        out.append({'func': 'h_trees', 'params': {'n': [2, 2], 'depth': 3}, 'opts': {'raw': False}})
+    for n, r in [([2, 2], 2), ([2, 2, 2], 2)]:
+        out.append({'func': 'h_integer_exact', 'params': {'n': n, 'r': r}, 'opts': {'raw': False}})
     return out
+
+
+BOUNDS = {
+    'quick': 'd in {2,3}, mode sizes 1..3, ranks 1..3 (incl. rank > mode size, unequal ranks); every core entry, weight and number '
+             'operand symbolic; all multi-indices; expression trees of depth <= 2 over {add, sub, mul, number, copy}; identities on '
+             'get/get_many/full/sum/mean/add/sub/mul/mul_scalar/norm/outer decided by z3 on the un-normalised term DAGs',
+    'thorough': 'adds d=4, mode size 3, trees of depth 3',
+}
+OUTSIDE = ('rounding of the sums of products (exact arithmetic; integer mode gives the magnitude bound for bit-exactness); '
+           'getter (numba absent); stabilised accuracy (C16); shapes beyond the bounds; composition beyond the tree depth is '
+           'covered by each operator being verified for arbitrary well-formed operands')
+ASSUMPTIONS = ['exact real arithmetic', 'norm: sqrt modelled as the non-negative root']
